@@ -16,6 +16,8 @@ package main
 //   reg     sequential NewLogger look-ups with equal / distinct names.
 //   cronseq sequences of cron.ParseStandard calls (descriptors, aliases, CRON_TZ/TZ prefixes) keeping
 //           every schedule: each must still evaluate as it did right after its own parse.
+//   cronconc many goroutines parse specs naming 4..7 different time zones at the same time; location and
+//           Next of every schedule against the same parse alone, during, at the end and afterwards.
 //   regrace several goroutines look up the SAME fresh logger names behind a spin barrier (many
 //           rounds; some names pre-registered, some goroutines asking for a second fresh name), then
 //           the names again sequentially: all instances for one name must be one object, and options
@@ -90,7 +92,7 @@ type faultSpec struct {
 }
 
 type poolOp struct {
-	Op   string `json:"op"` // get | append | resize | put
+	Op   string `json:"op"` // get | append | resize | put (mode "orig": Put of the slice as Get returned it) | check
 	U    int    `json:"u"`
 	Cap  int    `json:"cap,omitempty"`
 	D    []byte `json:"d,omitempty"`
@@ -657,6 +659,7 @@ func c08Pool(ctx *core.Ctx, in c08Input) {
 func c08PoolSeq(ctx *core.Ctx, in c08Input) {
 	pool := byteslicepool.NewByteSlicePool(in.MinCap)
 	held := map[int][]byte{}
+	orig := map[int][]byte{} // the slice as Get returned it (what `defer pool.Put(buf)` right after Get puts back)
 	var ops, seen []string
 	shrink, recycled := false, false
 	puts := 0
@@ -669,6 +672,7 @@ func c08PoolSeq(ctx *core.Ctx, in c08Input) {
 			}
 			s = pool.Get(o.Cap)
 			held[o.U] = s
+			orig[o.U] = s
 			if puts > 0 {
 				recycled = true
 			}
@@ -711,11 +715,23 @@ func c08PoolSeq(ctx *core.Ctx, in c08Input) {
 			}
 			held[o.U] = s
 			ops = append(ops, fmt.Sprintf("PResize %s %s", hx.CoqZ(int64(o.U)), hx.CoqZ(int64(n))))
+		case "check":
+			// no API call: the user looks again at the slice it is still holding
+			if !has {
+				continue
+			}
+			ops = append(ops, fmt.Sprintf("PCheck %s", hx.CoqZ(int64(o.U))))
 		case "put":
 			if !has {
 				continue
 			}
-			pool.Put(s)
+			if o.Mode == "orig" {
+				// buf := pool.Get(n); defer pool.Put(buf); buf = pool.Resize(buf, m) / append(buf, ...):
+				// the ORIGINAL slice goes back, a reallocated one is simply dropped
+				pool.Put(orig[o.U])
+			} else {
+				pool.Put(s)
+			}
 			delete(held, o.U)
 			puts++
 			ops = append(ops, fmt.Sprintf("PPut %s", hx.CoqZ(int64(o.U))))
@@ -753,7 +769,7 @@ func genPoolSeq(r *hx.Rand) c08Input {
 			holding[u] = true
 			continue
 		}
-		switch r.Intn(6) {
+		switch r.Intn(7) {
 		case 0, 1:
 			pops = append(pops, poolOp{Op: "append", U: u, D: alpha(u, r.Range(1, 40))})
 		case 2:
@@ -765,9 +781,34 @@ func genPoolSeq(r *hx.Rand) c08Input {
 				pops = append(pops, poolOp{Op: "put", U: u})
 				holding[u] = false
 			}
+		case 4:
+			// grow past the capacity, then (mostly) give the ORIGINAL slice back as the defer idiom does,
+			// and let the other users take slices at once
+			pops = append(pops, poolOp{Op: "resize", U: u, Mode: []string{"cap", "cap+1", "len+"}[r.Intn(3)], K: r.Range(40, 200)})
+			if r.Chance(3, 4) {
+				pops = append(pops, poolOp{Op: "put", U: u, Mode: "orig"})
+				holding[u] = false
+				for v := 1; v <= users; v++ {
+					if !holding[v] {
+						pops = append(pops, poolOp{Op: "get", U: v, Cap: []int{0, 8, 64}[r.Intn(3)]})
+						holding[v] = true
+					}
+				}
+				for v := 1; v <= users; v++ {
+					pops = append(pops, poolOp{Op: "append", U: v, D: alpha(v, r.Range(1, 20))})
+				}
+			}
 		default:
-			pops = append(pops, poolOp{Op: "put", U: u})
+			pops = append(pops, poolOp{Op: "put", U: u, Mode: []string{"", "orig"}[r.Intn(2)]})
 			holding[u] = false
+		}
+		// everybody still holding a slice looks at it again: nobody else may have touched it
+		if r.Chance(1, 2) {
+			for v := 1; v <= users; v++ {
+				if holding[v] && v != u {
+					pops = append(pops, poolOp{Op: "check", U: v})
+				}
+			}
 		}
 	}
 	return c08Input{Kind: "poolseq", MinCap: []int{0, 4, 16, 64}[r.Intn(4)], Pops: pops}
@@ -810,7 +851,9 @@ var cronSpecs = []string{"* * * * *", "*/5 1-3 * * *", "0 0 1 1 *", "15,45 */2 *
 	// the same descriptors / fields under different time zones: schedules must stay independent
 	"CRON_TZ=Asia/Tokyo @daily", "TZ=America/New_York @midnight", "CRON_TZ=Europe/Rome @hourly", "@yearly",
 	"TZ=Asia/Tokyo @annually", "CRON_TZ=UTC 0 0 * * *", "@weekly", "CRON_TZ=America/New_York @weekly", "@monthly",
-	"TZ=Europe/Rome @monthly", "CRON_TZ=Asia/Tokyo 30 4 * * *", "@midnight"}
+	"TZ=Europe/Rome @monthly", "CRON_TZ=Asia/Tokyo 30 4 * * *", "@midnight",
+	// one body under four zones (and one zone under several bodies above): keyed by more than the body / the zone
+	"CRON_TZ=Asia/Tokyo 0 6 * * *", "CRON_TZ=Europe/Rome 0 6 * * *", "TZ=America/New_York 0 6 * * *", "CRON_TZ=UTC 0 6 * * *"}
 
 func cronEval(s cron.Schedule) string {
 	t := time.Date(2024, 2, 28, 23, 59, 30, 0, time.UTC)
@@ -831,6 +874,160 @@ func cronResult(spec string) string {
 	return cronEval(s)
 }
 
+var cronZones = []string{"Asia/Tokyo", "America/New_York", "Europe/Rome", "UTC", "Australia/Sydney", "America/Sao_Paulo", "Asia/Kolkata"}
+var cronBodies = []string{"0 6 * * *", "@daily", "30 4 * * 1-5", "@hourly", "15 */3 1 * *", "@weekly"}
+
+func cronZoneSpec(z, b int, alt bool) string {
+	pre := "CRON_TZ="
+	if alt {
+		pre = "TZ="
+	}
+	return pre + cronZones[z%len(cronZones)] + " " + cronBodies[b%len(cronBodies)]
+}
+
+// what a parse gave: location name + next activations ("err" if it failed)
+func cronObserve(spec string) (cron.Schedule, string) {
+	s, err := cron.ParseStandard(spec)
+	if err != nil {
+		return nil, "err"
+	}
+	loc := "?"
+	if ss, ok := s.(*cron.SpecSchedule); ok && ss.Location != nil {
+		loc = ss.Location.String()
+	}
+	return s, loc + "|" + cronEval(s)
+}
+
+// cronTruth: what can be said about a spec from first principles, independently of any parse: the
+// zone named by its prefix, and for the body "0 6 * * *" the next activations themselves.
+func cronTruth(spec string) (loc string, next string) {
+	body := spec
+	for _, pre := range []string{"CRON_TZ=", "TZ="} {
+		if strings.HasPrefix(spec, pre) {
+			i := strings.Index(spec, " ")
+			loc, body = spec[len(pre):i], strings.TrimSpace(spec[i:])
+		}
+	}
+	if loc != "" && body == "0 6 * * *" {
+		if l, err := time.LoadLocation(loc); err == nil {
+			t := time.Date(2024, 2, 28, 23, 59, 30, 0, time.UTC)
+			var sb strings.Builder
+			for i := 0; i < 4; i++ {
+				lt := t.In(l)
+				n := time.Date(lt.Year(), lt.Month(), lt.Day(), 6, 0, 0, 0, l)
+				if !n.After(t) {
+					n = time.Date(lt.Year(), lt.Month(), lt.Day()+1, 6, 0, 0, 0, l)
+				}
+				t = n
+				sb.WriteString(t.UTC().Format(time.RFC3339))
+				sb.WriteByte(';')
+			}
+			next = sb.String()
+		}
+	}
+	return
+}
+
+// cronAgrees: the observation "loc|next" against the truth as far as it is known
+func cronAgrees(spec, obs string) bool {
+	loc, next := cronTruth(spec)
+	if loc == "" || obs == "err" {
+		return true
+	}
+	i := strings.Index(obs, "|")
+	return obs[:i] == loc && (next == "" || obs[i+1:] == next)
+}
+
+// c08CronConc: many goroutines parse specs naming >= 4 different zones at the same time (barrier per
+// round); location and Next of every schedule against the result of the same parse alone; the
+// schedules are kept and looked at again at the end, and every spec is parsed once more alone
+// afterwards (a poisoned package-level cache would show then).
+func c08CronConc(ctx *core.Ctx, in c08Input) {
+	r := hx.NewRand(in.Seed)
+	W, R := in.Workers, in.Rounds
+	nz := 4 + r.Intn(len(cronZones)-3)
+	solo := map[string]string{}
+	var soloBad []string
+	specs := make([][]string, W)
+	for w := range specs {
+		for k := 0; k < R; k++ {
+			sp := cronZoneSpec(r.Intn(nz), r.Intn(len(cronBodies)), r.Chance(1, 3))
+			if r.Chance(1, 8) {
+				sp = cronBodies[r.Intn(len(cronBodies))] // no zone
+			}
+			specs[w] = append(specs[w], sp)
+			if _, ok := solo[sp]; !ok {
+				_, solo[sp] = cronObserve(sp)
+				if !cronAgrees(sp, solo[sp]) {
+					soloBad = append(soloBad, fmt.Sprintf("alone: %q gives %s", sp, solo[sp]))
+				}
+			}
+		}
+	}
+	bad := make([][]string, W)
+	var wg sync.WaitGroup
+	arrived := make([]atomic.Int32, R)
+	for w := 0; w < W; w++ {
+		wg.Add(1)
+		go func(w int) {
+			defer wg.Done()
+			kept := make([]cron.Schedule, R)
+			first := make([]string, R)
+			for k, sp := range specs[w] {
+				arrived[k].Add(1)
+				for arrived[k].Load() < int32(W) {
+					runtime.Gosched()
+				}
+				kept[k], first[k] = cronObserve(sp)
+				if first[k] != solo[sp] {
+					bad[w] = append(bad[w], fmt.Sprintf("%q gave %s, alone %s", sp, first[k], solo[sp]))
+				}
+			}
+			for k, s := range kept {
+				if s != nil {
+					if again := first[k][:strings.Index(first[k], "|")+1] + cronEval(s); again != first[k] {
+						bad[w] = append(bad[w], fmt.Sprintf("schedule of %q changed later", specs[w][k]))
+					}
+				}
+			}
+		}(w)
+	}
+	wg.Wait()
+	var classes, notes []string
+	for w := range bad {
+		if len(bad[w]) == 0 {
+			classes = append(classes, "Same")
+		} else {
+			classes = append(classes, "Differs")
+			notes = append(notes, fmt.Sprintf("worker %d: %s", w, bad[w][0]))
+		}
+	}
+	if len(soloBad) > 0 {
+		classes = append(classes, "Differs")
+		notes = append(notes, soloBad[0])
+	}
+	after := "Same"
+	for sp, want := range solo {
+		if _, got := cronObserve(sp); got != want {
+			after = "Differs"
+			notes = append(notes, fmt.Sprintf("afterwards, alone: %q gives %s, before %s", sp, got, want))
+			break
+		}
+	}
+	classes = append(classes, after)
+	c := hx.Case{Kind: "cronconc", Input: hx.MustJSON(in), Facts: map[string]any{},
+		Class: fmt.Sprintf("cronconc/%d/%d/%d", W, R, in.Seed), Trivial: W < 2,
+		Observed: map[string]any{"zones": nz, "specs": len(solo), "notes": notes}, Coq: "CObs " + coqClasses(classes)}
+	if len(notes) > 0 {
+		if len(notes) > 4 {
+			notes = notes[:4]
+		}
+		c.Note = strings.Join(notes, "; ")
+	}
+	ctx.Sink.Count("kind=cronconc")
+	ctx.Sink.Add(c)
+}
+
 // c08CronSeq: parse a sequence of specs keeping every schedule; each schedule, evaluated after ALL
 // parses, must still give what it gave right after its own parse (and what the spec gives alone).
 func c08CronSeq(ctx *core.Ctx, in c08Input) {
@@ -839,6 +1036,7 @@ func c08CronSeq(ctx *core.Ctx, in c08Input) {
 		first string
 	}
 	ks := make([]kept, len(in.Names))
+	wrong := make([]string, len(in.Names))
 	for i, n := range in.Names {
 		spec := cronSpecs[n%len(cronSpecs)]
 		s, err := cron.ParseStandard(spec)
@@ -847,11 +1045,23 @@ func c08CronSeq(ctx *core.Ctx, in c08Input) {
 			continue
 		}
 		ks[i] = kept{s, cronEval(s)}
+		loc := "?"
+		if ss, ok := s.(*cron.SpecSchedule); ok && ss.Location != nil {
+			loc = ss.Location.String()
+		}
+		if !cronAgrees(spec, loc+"|"+ks[i].first) {
+			wrong[i] = fmt.Sprintf("schedule %d (%q) is in zone %s, next %s", i, spec, loc, ks[i].first)
+		}
 	}
 	classes := make([]string, len(ks))
 	var notes []string
 	for i, k := range ks {
 		classes[i] = "Same"
+		if wrong[i] != "" {
+			classes[i] = "Differs"
+			notes = append(notes, wrong[i])
+			continue
+		}
 		if k.s != nil {
 			if again := cronEval(k.s); again != k.first {
 				classes[i] = "Differs"
@@ -999,7 +1209,17 @@ func runConc(in c08Input) concResult {
 						break
 					}
 					j.result = "Same"
-					if j.name%3 == 2 {
+					if j.name == 7 || j.name == 9 {
+						// buf := Get; defer Put(buf); buf = Resize(buf, more than cap): the original goes back
+						first := s
+						s = shared.Resize(s, cap(s)+len(j.data))
+						copy(s, j.data)
+						runtime.Gosched()
+						if !bytes.Equal(s[:len(j.data)], j.data) {
+							j.result = "Differs"
+						}
+						s = first
+					} else if j.name%3 == 2 {
 						// write, then shrink before Put: the next user of the array must still see zeroes only
 						s = append(s, j.data...)
 						if !bytes.Equal(s, j.data) {
@@ -1887,6 +2107,8 @@ func c08Run(ctx *core.Ctx, in c08Input) {
 		c08RegRace(ctx, in)
 	case "cronseq":
 		c08CronSeq(ctx, in)
+	case "cronconc":
+		c08CronConc(ctx, in)
 	case "poolseq":
 		c08PoolSeq(ctx, in)
 	case "cryptoconc":
@@ -2038,6 +2260,10 @@ func c08Gen(ctx *core.Ctx) {
 	}
 	for k := 0; k < 6*mult; k++ {
 		c08Run(ctx, c08Input{Kind: "conc", Workers: r.Range(4, 12), Rounds: r.Range(15, 40), Seed: r.U64()})
+	}
+	// many goroutines parsing specs of 4..7 time zones at the same time
+	for k := 0; k < 6*mult; k++ {
+		c08Run(ctx, c08Input{Kind: "cronconc", Workers: []int{4, 8, 16, 16, 8, 12}[k%6], Rounds: 400, Seed: r.U64()})
 	}
 	// every crypto entry point from several goroutines with their own keys
 	for k := 0; k < 5*mult; k++ {
